@@ -1,5 +1,229 @@
-import ZodbModel.Demo
+/-
+  C16 — A demo storage never modifies its base and reads as changes-over-base.
+
+  Property theorems only (helper lemmas: `Proofs/Demo*.lean`).  The model (`ZodbModel/Demo.lean`)
+  follows DemoStorage.py as coded over abstract history-backed layers; a `Store` is a stack
+  `demo (demo base c₁ _) c₂ _ …`, so every theorem about `Store` holds for all stackings.  The spec
+  is ONE history: the concatenation `s.iterator` (base first) and, per oid, its revision list
+  `s.revs o`, queried with the History semantics (`loadBeforeR`, `loadSerialR`, `getTidR`, `historyR`).
+
+  Hypotheses (all decidable predicates on the state):
+    `Sorted`      each layer's transactions are in increasing tid order,
+    `TidOrdered`  every changes tid is above every tid below it,
+    `BelowMax`    tids are below `maxtid`,
+    `UncreateOverNothing`  a changes layer holds an un-creation record only for an oid unknown below.
+  `Sorted` and `TidOrdered` are THEOREMS for every reachable state (`reachable_tid_ordered`): the
+  repaired `tpc_begin` takes clock tids above `lastTransaction()`; only a caller passing an explicit
+  tid must pass one above `lastTransaction()`.  `UncreateOverNothing` is NOT enforced by the code: undo
+  through a demo storage whose changes support undo can write an un-creation over a base object; the
+  model then shows the wrong answers (`uncreate_over_base_*`, open finding
+  `C16:undo-over-base-(loadbefore|unwritable)`).
+-/
+import Proofs.DemoInv
 namespace Props.C16
-open ZodbModel.Demo
-theorem stub : maxtid = 2 ^ 63 - 1 := rfl
+open ZodbModel ZodbModel.Demo Proofs.Demo
+
+/-! ### 1. the base is never modified -/
+
+/-- No API call made on a demo storage changes the storage below it: the result is a demo storage
+    over the very same base, or (`pop`) that base itself, or (`push`) a new demo storage over the
+    unchanged demo storage.  In particular no step of the two-phase commit reaches the base. -/
+theorem demo_base_unchanged (b : Store) (c : Layer) (ds : DState) (op : Op) :
+    (∃ c' ds', (step (.demo b c ds) op).1 = .demo b c' ds') ∨
+    (step (.demo b c ds) op).1 = b ∨
+    (∃ c' ds', (step (.demo b c ds) op).1 = .demo (.demo b c ds) c' ds') :=
+  step_base b c ds op
+
+/-- … and so does every history of transactions, undos, packs and allocations -/
+theorem demo_base_unchanged_run (b : Store) (ops : List Op)
+    (h : ∀ op ∈ ops, Op.isStack op = false) (c : Layer) (ds : DState) :
+    ∃ c' ds', run (.demo b c ds) ops = .demo b c' ds' :=
+  run_base b ops h c ds
+
+/-- push, any history, pop: the storage pushed upon comes back exactly as it was -/
+theorem push_pop (s : Store) (d : Oid) (ops : List Op) (h : ∀ op ∈ ops, Op.isStack op = false) :
+    run s ([.push d] ++ ops ++ [.pop]) = s :=
+  push_run_pop s d ops h
+
+/-! ### 2. every read = the read on the concatenated history -/
+
+/-- `loadBefore` (up to `None` ≈ POSKeyError, and exactly when no un-creation record of the oid exists),
+    `load`, `loadSerial`, `getTid`, `history`: the demo stack answers as the single history
+    `base ++ changes` does — including the end tid that joins a base revision to the first change. -/
+theorem demo_load_is_merge (s : Store) (hs : Sorted s) (ho : TidOrdered s) (hm : BelowMax s)
+    (hu : UncreateOverNothing s) (o : Oid) :
+    (∀ t, vis (s.loadBefore o t) = vis (loadBeforeR (s.revs o) t)) ∧
+    (AllData (s.revs o) → ∀ t, s.loadBefore o t = loadBeforeR (s.revs o) t) ∧
+    s.load o = loadCurrentR (s.revs o) ∧
+    (∀ ser, s.loadSerial o ser = loadSerialR (s.revs o) ser) ∧
+    s.getTid o = getTidR (s.revs o) ∧
+    (∀ n, 1 ≤ n → s.history o n = historyR (s.revs o) n) :=
+  have hok := oidOK_of hs ho hm hu o
+  ⟨store_loadBefore_vis s o hok, store_loadBefore_exact s o hok, store_load s o hok,
+   store_loadSerial s o hok, store_getTid s o hok, fun n hn => store_history s o n hn⟩
+
+/-- the revisions of an oid in a demo storage are the base's followed by the changes' -/
+theorem revs_concat (b : Store) (c : Layer) (ds : DState) (o : Oid) :
+    (Store.demo b c ds).revs o = b.revs o ++ c.revs o := revs_demo b c ds o
+
+/-- `iterator()` yields the concatenated history in strictly increasing tid order, and
+    `iterator(start, stop)` is its restriction to the range -/
+theorem demo_iterator (s : Store) (hs : Sorted s) (ho : TidOrdered s) (a z : Tid) :
+    s.iterator.Pairwise (fun x y => x.tid < y.tid) ∧
+    s.iteratorRange a z = s.iterator.filter (fun t => a ≤ t.tid ∧ t.tid ≤ z) :=
+  ⟨iterator_sorted hs ho, iteratorRange_eq s a z⟩
+
+/-- **stack_assoc**: how a history is cut into layers does not matter — two stacks with the same
+    concatenated history answer every read alike (e.g. `demo (demo b c₁) c₂` and `demo b (c₁ ++ c₂)`) -/
+theorem stack_assoc (s₁ s₂ : Store) (h : s₁.iterator = s₂.iterator)
+    (h₁ : Sorted s₁ ∧ TidOrdered s₁ ∧ BelowMax s₁ ∧ UncreateOverNothing s₁)
+    (h₂ : Sorted s₂ ∧ TidOrdered s₂ ∧ BelowMax s₂ ∧ UncreateOverNothing s₂) (o : Oid) :
+    (∀ t, vis (s₁.loadBefore o t) = vis (s₂.loadBefore o t)) ∧
+    s₁.load o = s₂.load o ∧ (∀ ser, s₁.loadSerial o ser = s₂.loadSerial o ser) ∧
+    s₁.getTid o = s₂.getTid o ∧ (∀ n, 1 ≤ n → s₁.history o n = s₂.history o n) := by
+  obtain ⟨a1, a2, a3, a4⟩ := h₁
+  obtain ⟨b1, b2, b3, b4⟩ := h₂
+  obtain ⟨p1, _, p3, p4, p5, p6⟩ := demo_load_is_merge s₁ a1 a2 a3 a4 o
+  obtain ⟨q1, _, q3, q4, q5, q6⟩ := demo_load_is_merge s₂ b1 b2 b3 b4 o
+  have hr : s₁.revs o = s₂.revs o := by unfold Store.revs; rw [h]
+  refine ⟨fun t => by rw [p1, q1, hr], by rw [p3, q3, hr], fun ser => by rw [p4, q4, hr],
+    by rw [p5, q5, hr], fun n hn => by rw [p6 n hn, q6 n hn, hr]⟩
+
+/-! ### 3. TidOrdered is an invariant of the (repaired) code -/
+
+/-- Starting from an empty storage, whatever is done — as long as a caller who passes an explicit tid
+    passes one above `lastTransaction()`; tids taken from the clock need no hypothesis at all, whatever
+    the clock reads — every layer is sorted, every changes tid is above every tid below, and
+    `lastTransaction()` dominates all tids. -/
+theorem reachable_tid_ordered (canUndo : Bool) (ops : List Op)
+    (hops : ∀ (pre : List Op) (op : Op) (post : List Op), ops = pre ++ op :: post →
+      OpOK (run (.leaf (Layer.empty canUndo)) pre) op) :
+    let s := run (.leaf (Layer.empty canUndo)) ops
+    Sorted s ∧ TidOrdered s ∧ ∀ t ∈ s.iterator, t.tid ≤ s.lastTransaction :=
+  have hi := run_inv (.leaf (Layer.empty canUndo)) ops
+    (show Inv (.leaf (Layer.empty canUndo)) from layerInv_empty 0 canUndo) hops
+  ⟨inv_sorted hi, inv_tidOrdered hi, inv_dominates hi⟩
+
+/-- the newest snapshot (`lastTransaction() + 1`) shows every object exactly as `load` does -/
+theorem newest_snapshot_is_current (s : Store) (hi : Inv s) (hm : BelowMax s)
+    (hu : UncreateOverNothing s) (o : Oid) :
+    vis (s.loadBefore o (s.lastTransaction + 1)) = vis (s.loadBefore o maxtid) :=
+  snapshot_current hi hm hu o
+
+/-! ### 4. conflict detection uses the merged current revision -/
+
+/-- `store(oid, serial, …)` inside the transaction in progress succeeds iff `serial` is the tid of the
+    current revision of the concatenated history — wherever that revision lives — and any serial is
+    accepted for an oid unknown to all layers; otherwise ConflictError (nothing is resolvable here). -/
+theorem demo_conflict_merged (b : Store) (c : Layer) (ds : DState) (x : Nat) (o : Oid) (ser : Tid)
+    (d : Data) (htxn : ds.txn = some x) (hst : c.staged.isSome = true)
+    (hs : Sorted (.demo b c ds)) (ho : TidOrdered (.demo b c ds)) (hm : BelowMax (.demo b c ds))
+    (hu : UncreateOverNothing (.demo b c ds)) :
+    ((Store.demo b c ds).revs o = [] → (step (.demo b c ds) (.store x o ser d)).2 = .ok) ∧
+    (∀ tl dl, ((Store.demo b c ds).revs o).getLast? = some (tl, some dl) →
+      (ser = tl → (step (.demo b c ds) (.store x o ser d)).2 = .ok) ∧
+      (ser ≠ tl → (step (.demo b c ds) (.store x o ser d)).2 = .err .conflict)) :=
+  store_conflict_merged b c ds x o ser d htxn hst (oidOK_of hs ho hm hu o) (by
+    intro y hy
+    obtain ⟨t, ht, he, _⟩ := mem_revsOf hy
+    rw [← he]; exact hm t ht)
+
+/-! ### 5. new ids never collide -/
+
+/-- For EVERY stream of candidate draws: the oid `new_oid` returns is not in the issued set and
+    `load_current` fails for it in the changes and in the base; it is then recorded as issued.  If any
+    candidate of the stream is free, an oid is returned. -/
+theorem demo_oid_fresh (b : Store) (c : Layer) (ds : DState) (draws : List Oid) :
+    (∀ o used, (step (.demo b c ds) (.newOid draws)).2 = .oid (some o) used →
+      o ∉ ds.issued ∧ (Store.leaf c).live o = false ∧ b.live o = false ∧
+      ∃ ds', (step (.demo b c ds) (.newOid draws)).1 = .demo b c ds' ∧ ds'.issued = o :: ds.issued ∧
+        ds'.next = o + 1) ∧
+    ((freeOid b c ds ds.next = true ∨ ∃ d ∈ draws, freeOid b c ds d = true) →
+      ∃ o used, (step (.demo b c ds) (.newOid draws)).2 = .oid (some o) used) := by
+  refine ⟨fun o used h => newOid_fresh b c ds draws o used h, ?_⟩
+  intro h
+  obtain ⟨o, nxt, u, hr⟩ := drawLoop_complete draws ds.next 0 h
+  exact ⟨o, u, by simp [step, hr]⟩
+
+/-- with no un-creation records, "`load_current` fails" is "no revision in that layer": the new oid
+    is outside issued ∪ oids(changes) ∪ oids(base) -/
+theorem demo_oid_fresh_oids (b : Store) (c : Layer) (ds : DState) (draws : List Oid) (o : Oid)
+    (used : Nat) (hs : Sorted (.demo b c ds)) (ho : TidOrdered (.demo b c ds))
+    (hm : BelowMax (.demo b c ds)) (hu : UncreateOverNothing (.demo b c ds))
+    (hd : AllData ((Store.demo b c ds).revs o))
+    (h : (step (.demo b c ds) (.newOid draws)).2 = .oid (some o) used) :
+    o ∉ ds.issued ∧ c.revs o = [] ∧ b.revs o = [] := by
+  obtain ⟨h1, h2, h3, _⟩ := newOid_fresh b c ds draws o used h
+  rw [revs_demo] at hd
+  have hmb : BelowMax b := belowMax_base hm
+  have hb : b.revs o = [] := by
+    apply Classical.byContradiction
+    intro hne
+    have := (live_iff b o (oidOK_of hs.1 ho.1 hmb hu.1 o) (allData_append hd).1 (by
+      intro y hy
+      obtain ⟨t, ht, he, _⟩ := mem_revsOf hy
+      rw [← he]; exact hmb t ht)).2 hne
+    rw [this] at h3; cases h3
+  have hc : c.revs o = [] := by
+    apply Classical.byContradiction
+    intro hne
+    have := (live_iff (.leaf c) o trivial (allData_append hd).2 (by
+      intro y hy
+      obtain ⟨t, ht, he, _⟩ := mem_revsOf hy
+      rw [← he]; exact hm t (List.mem_append.2 (Or.inr ht)))).2 hne
+    rw [this] at h2; cases h2
+  exact ⟨h1, hc, hb⟩
+
+/-! ### non-vacuity: a concrete two-level stack with an oid in both layers meets every hypothesis -/
+
+def exOps : List Op :=
+  [.begin 1 (some 10) 0, .store 1 1 0 101, .store 1 2 0 102, .vote 1, .finish 1,
+   .begin 2 (some 20) 0, .store 2 1 10 103, .vote 2, .finish 2,
+   .pushWith true 2,
+   .begin 3 none 5,                        -- the clock (5) is far behind the base (20): tid 21
+   .store 3 1 20 104, .vote 3, .finish 3,
+   .push 7,
+   .begin 4 (some 40) 0, .store 4 1 21 105, .store 4 7 0 106, .vote 4, .finish 4]
+
+def exS : Store := run (.leaf (Layer.empty false)) exOps
+
+example : Sorted exS ∧ TidOrdered exS ∧ BelowMax exS ∧ UncreateOverNothing exS := by decide
+example : exS.revs 1 = [(10, some 101), (20, some 103), (21, some 104), (40, some 105)] := by decide
+example : exS.loadBefore 1 15 = .ok (some (101, 10, some 20)) := by decide
+example : exS.loadBefore 1 21 = .ok (some (103, 20, some 21)) := by decide   -- base revision closed by the change
+example : exS.loadBefore 2 41 = .ok (some (102, 10, none)) := by decide
+example : exS.lastTransaction = 40 := by decide
+example : (step exS (.newOid [1, 7, 9])).2 = .oid (some 9) 3 := by decide   -- 7 (next), 1, 7 are taken
+example : (step exS (.newOid [])).1.loadBefore 1 41 = exS.loadBefore 1 41 := by decide
+example : (step (step exS (.begin 5 (some 50) 0)).1 (.store 5 1 21 107)).2 = .err .conflict := by decide
+example : (step (step exS (.begin 5 (some 50) 0)).1 (.store 5 2 10 107)).2 = .ok := by decide
+
+/-! ### the excluded point `UncreateOverNothing` (open finding): the model, following the code, gives
+    the wrong answers — undo of the transaction that first changed a base object -/
+
+def badOps : List Op :=
+  [.begin 1 (some 10) 0, .store 1 1 0 101, .vote 1, .finish 1,
+   .pushWith true 50,
+   .begin 2 (some 20) 0, .store 2 1 10 102, .vote 2, .finish 2,
+   .begin 3 (some 30) 0, .undo 3 20, .vote 3, .finish 3]
+
+def badS : Store := run (.leaf (Layer.empty false)) badOps
+
+/-- the hypothesis fails, everything else holds … -/
+theorem uncreate_over_base_state :
+    Sorted badS ∧ TidOrdered badS ∧ BelowMax badS ∧ ¬ UncreateOverNothing badS := by decide
+
+/-- … the base revision (tid 10, valid until 20) can no longer be read at a time inside its interval
+    (POSKeyError from the end-tid walk), although the concatenated history shows it … -/
+theorem uncreate_over_base_loadBefore :
+    badS.loadBefore 1 15 = .error .keyError ∧
+    loadBeforeR (badS.revs 1) 15 = .ok (some (101, 10, some 20)) := by decide
+
+/-- … and the object is unwritable: `load` reports serial 10, and a store with that serial, or with
+    the un-creation's tid, conflicts. -/
+theorem uncreate_over_base_unwritable :
+    badS.load 1 = .ok (101, 10) ∧
+    (step (step badS (.begin 4 (some 40) 0)).1 (.store 4 1 10 103)).2 = .err .conflict ∧
+    (step (step badS (.begin 4 (some 40) 0)).1 (.store 4 1 30 103)).2 = .err .conflict := by decide
+
 end Props.C16
